@@ -1,5 +1,6 @@
 """C07 - resuming from a checkpoint reproduces the first run (E5 history explorer + value alphabet)."""
 import os
+import gc
 import copy
 import shutil
 import decimal
@@ -130,17 +131,44 @@ def value_batch(batch):
 
 
 # ---- part B: histories --------------------------------------------------------------------------
-OPS = ['run', 'rm c1', 'rm c2', 'rm both']
+OPS = ['run', 'rm c1', 'rm c2', 'rm both', 'failing-run:src', 'failing-run:B', 'failing-run:C']
 
 
-def history_flow(root, counters):
+class PlannedFailure(Exception):
+    pass
+
+
+def _chain(e):
+    seen = []
+    while e is not None and e not in seen:
+        seen.append(e)
+        e = e.__cause__ or e.__context__
+    return seen
+
+
+def history_flow(root, counters, fail=None):
+    """fail: None, or the place where this run breaks while rows are flowing: 'src' (the source, on its second row),
+    'B' (between the checkpoints, on the first row) or 'C' (after the last checkpoint, on the last resource)."""
     def counting(name):
         def step(package):
             counters[name] += 1
             yield package.pkg
-            for res in package:
-                yield res
+            for k, res in enumerate(package):
+                if fail == name and (name == 'B' or k == 2):
+                    yield failing(res)
+                else:
+                    yield res
         return step
+
+    def failing(res):
+        for row in res:
+            raise PlannedFailure('step %s fails while rows are flowing' % fail)
+            yield row
+
+    def pulled(i, j):
+        counters['src'] += 1
+        if fail == 'src' and counters['src'] == 2:
+            raise PlannedFailure('the source fails on its second row')
     st = mkstate([('t', [('id', 'integer'), ('when', 'datetime'), ('amt', 'number')],
                    [{'id': 1, 'when': datetime.datetime(2020, 1, 1, 1, 1, 1), 'amt': D('1.50')},
                     {'id': 2, 'when': None, 'amt': D('-3')}]),
@@ -151,7 +179,7 @@ def history_flow(root, counters):
         if 'id' in row:
             row['id'] += 100
             row['amt'] = None if row['amt'] is None else row['amt'] * 2
-    return core.Flow(core.from_state(st, on_pull=lambda i, j: counters.__setitem__('src', counters['src'] + 1)),
+    return core.Flow(core.from_state(st, on_pull=pulled),
                      counting('A'), core.dataflows.add_field('fa', 'integer', 1),
                      core.dataflows.checkpoint('c1', checkpoint_path=root),
                      counting('B'), bump, core.dataflows.add_field('fb', 'integer', 2),
@@ -202,6 +230,36 @@ def explore_histories(depth):
                         out['viol'].append(('history-differs/%d%d' % (has1, has2), 'history [%s]: run result differs from '
                                             'the first run' % label, {'part': 'history', 'hist': hist + [op]}))
                     out['outcomes']['run:c1=%d,c2=%d' % (has1, has2)] = out['outcomes'].get('run:c1=%d,c2=%d' % (has1, has2), 0) + 1
+                elif op.startswith('failing-run'):
+                    # a run that breaks while rows are flowing must not leave anything a later run would resume from:
+                    # checked on the spot (no new completed checkpoint) and, through the BFS, by every later 'run'
+                    counters = collections.Counter()
+                    where = op.split(':')[1]
+                    try:
+                        history_flow(root, counters, fail=where).results()
+                        failed = False
+                    except PlannedFailure:
+                        failed = True
+                    except Exception as e:
+                        failed = True
+                        if not any(isinstance(x, PlannedFailure) for x in _chain(e)):
+                            out['viol'].append(('history-raises/failing-run', 'history [%s]: unexpected %s: %s' %
+                                                (label, core.exc_sig(e), str(e)[:100]), {'part': 'history', 'hist': hist + [op]}))
+                    gc.collect()
+                    reached = not (has2 and where in ('src', 'B')) and not (has1 and where == 'src')
+                    if reached and not failed:
+                        out['viol'].append(('failing-run-returns/%s' % where, 'history [%s]: the run returned normally although '
+                                            'step %s raised' % (label, where), {'part': 'history', 'hist': hist + [op]}))
+                    now1 = os.path.exists(os.path.join(root, 'c1', 'stream.ndjson'))
+                    now2 = os.path.exists(os.path.join(root, 'c2', 'stream.ndjson'))
+                    # wherever it breaks, no checkpoint has seen the end of its stream: nothing new may be complete
+                    expect1 = has1
+                    expect2 = has2
+                    if failed and (now1, now2) != (expect1, expect2):
+                        out['viol'].append(('failed-run-publishes/%s' % where, 'history [%s]: the failed run left completed '
+                                            'checkpoint files c1=%s c2=%s (before: c1=%s c2=%s)' % (label, now1, now2, has1, has2),
+                                            {'part': 'history', 'hist': hist + [op]}))
+                    out['outcomes'][op] = out['outcomes'].get(op, 0) + 1
                 else:
                     for name in (['c1', 'c2'] if op == 'rm both' else [op.split()[1]]):
                         shutil.rmtree(os.path.join(root, name), ignore_errors=True)
